@@ -30,6 +30,7 @@ from __future__ import annotations
 import ast
 import os
 import random
+from concurrent.futures import ThreadPoolExecutor
 from typing import Any, Optional
 
 from .. import codec, core, pyz
@@ -54,6 +55,9 @@ OUTCOMES = [
     "inherited-generic-init-diagnosed", "inherited-generic-init-accepted", "generic-class-typevar-solved-per-call",
     "method-on-constructed-instance-diagnosed", "get-on-constructed-instance", "generic-class-parameter-accepted",
     "generic-class-parameter-rejected", "protocol-parameter-accepted",
+    # the keyword-names slice (Calls!LibKwn)
+    "keyword-named-like-positional-only-lands-in-kwargs-diagnosed", "keyword-named-like-star-args-lands-in-kwargs-diagnosed",
+    "keyword-named-kwargs-lands-in-kwargs-diagnosed", "keyword-reusing-parameter-name-accepted",
 ]
 _DIAG = {"incompatible_argument": "nia", "incompatible_call": "nic"}
 
@@ -76,6 +80,7 @@ _LIB_DIAG = {"incompatible_default", "incompatible_assignment"}
 # the user-defined generic classes of Calls!GClasses (rendered by gclasses_source from TLC's data)
 _GCLS = ("GBox", "IntBox", "SmallIntBox", "StrBox", "PairBox", "OwnBox", "NumBox", "ConBox", "DBox", "IntDBox")
 _GMKS = ("gctor", "gctorget", "gmeth", "gcmeth", "gspec")
+_KWN_IDS = ("po_kw", "po_default_kw", "va_kw", "dunder_kw", "tv_kw")
 
 
 def ann(t: dict) -> str:
@@ -133,8 +138,11 @@ def lit(o: dict) -> str:
 def _params_src(decl: list[dict]) -> str:
     parts = []
     seen_star = False
-    for p in decl:
+    npo = len([p for p in decl if p["kind"] == "po"])
+    for idx, p in enumerate(decl):
         name, kind = p["name"], p["kind"]
+        if npo and idx == npo:
+            parts.append("/")      # the parameters before it are positional-only (PEP 570)
         if name in ("self", "cls"):
             parts.append(f"{name}: {ann(p['ann'])}" if p["ann"]["k"] == "typevar" else name)  # `self: T`
             continue
@@ -150,6 +158,8 @@ def _params_src(decl: list[dict]) -> str:
             parts.append("*")
             seen_star = True
         parts.append(text)
+    if npo and npo == len(decl):
+        parts.append("/")
     return ", ".join(parts)
 
 
@@ -367,7 +377,10 @@ def obj_term(x: Any) -> dict:
     if t in (list, tuple, set):
         return {"c": t.__name__, "v": "", "items": [obj_term(e) for e in (sorted(x, key=repr) if t is set else x)]}
     if t is dict:
-        return {"c": "dict", "v": "", "items": [{"key": obj_term(k), "val": obj_term(v)} for k, v in x.items()]}
+        # string keys keep their text: the keys of a **kwargs dict are keyword NAMES (kwargs, zz, args, ...), which are
+        # not scalars of the shared universe (Calls!RefBoundObj builds Obj("str", <name>))
+        return {"c": "dict", "v": "", "items": [{"key": {"c": "str", "v": k, "items": []} if type(k) is str else obj_term(k),
+                                                  "val": obj_term(v)} for k, v in x.items()]}
     return codec.py_to_obj(x)
 
 
@@ -681,6 +694,18 @@ def outcome_classes(fns: dict, o: dict) -> list[str]:
         out.append("default-bound")
     if o["real"]["raised"]:
         out.append("runtime-raises")
+    # --- the keyword-names slice (recorded facts only)
+    if fn["id"] in _KWN_IDS:
+        kinds = {p["name"]: p["kind"] for p in fn["decl"]}
+        for e in o["kw"]:
+            k = kinds.get(e["name"])
+            if k in ("po", "va", "vk"):
+                if not diagnosed:
+                    out.append("keyword-reusing-parameter-name-accepted")
+                elif o["nia"] >= 1:
+                    out.append({"po": "keyword-named-like-positional-only-lands-in-kwargs-diagnosed",
+                                "va": "keyword-named-like-star-args-lands-in-kwargs-diagnosed",
+                                "vk": "keyword-named-kwargs-lands-in-kwargs-diagnosed"}[k])
     # --- the generic-classes slice (recorded facts only)
     if fn["mk"] == "gctor" and not fn["tvs"] and fn["cls"] != "OwnBox":
         out.append("inherited-generic-init-diagnosed" if diagnosed else "inherited-generic-init-accepted")
@@ -758,7 +783,7 @@ def _nontrivial(libdata_fns: dict, case: dict) -> bool:
 def judge(check: core.Check, libdata: dict, cases: list[dict], label: str,
           observations: Optional[list[dict]] = None) -> dict[str, int]:
     obs = observations if observations is not None else observe(libdata, cases)
-    verdicts, stats = core.adjudicate("CallsTrace", TRACE_CFG, obs, batch=1500, parallel=8, timeout=3000)
+    verdicts, stats = core.adjudicate("CallsTrace", TRACE_CFG, obs, batch=800, parallel=10, timeout=3000)
     check.add_trace_stats(stats)
     check.evals(len(obs))
     fns = {f["id"]: f for f in libdata["lib"]}
@@ -855,28 +880,50 @@ def run(check: core.Check) -> None:
         "different mechanism): put() on GBox(1) (T inferred Literal[1], so put(2) is rejected), methods on a module-level "
         "instance ib0 = IntBox(1) (ib0.put('a') is accepted)",
     ]
-    # 1. the design: TLC proves the three clauses for every call of the bounded space on the model
+    # All TLC jobs of this run are independent of each other: the small ones (every quick-tier job; in the thorough tier
+    # the sensitivity / slice jobs) are started up front, a few at a time with 4 TLC workers each, and the code below picks
+    # up their results where it used to run them one after the other.  JVM start + parsing dominates a small job.
     cfg = "Calls.quick.cfg" if quick else "Calls.thorough.cfg"
+    ecfg0 = "Calls.emit.quick.cfg" if quick else "Calls.emit.thorough.cfg"
+    ncfg0 = "Calls.new.quick.cfg" if quick else "Calls.new.thorough.cfg"
+    small_jobs = [("Calls", "Calls.cov.cfg", {"coverage": True}), ("CallsEmit", "Calls.gen.quick.cfg", {}),
+                  ("CallsEmit", "Calls.kwn.quick.cfg", {})]
+    small_jobs += [("Calls", c, {}) for c in ("Calls.sens1.cfg", "Calls.sens2.cfg", "Calls.sens3.cfg", "Calls.sens4.cfg",
+                                             "Calls.sens5.cfg", "Calls.strict.cfg", "Calls.strict2.cfg", "Calls.strict3.cfg",
+                                             "Calls.fixed.cfg")]
+    if quick:
+        small_jobs = [("Calls", cfg, {}), ("CallsEmit", ecfg0, {}), ("CallsEmit", ncfg0, {})] + small_jobs
+    core.scratch()
+    pool = ThreadPoolExecutor(max_workers=5 if quick else 3)
+    started = {(m, c): pool.submit(core.run_tlc, m, c, workers=4, timeout=3000, **kw) for m, c, kw in small_jobs}
+    sim_job = pool.submit(core.simulate_cases, "CallsEmit", "Calls.sim.cfg", 800 if quick else 20000, depth=8,
+                          seed=check.seed + 11, check=check)
+
+    def tlc(module: str, cfg_name: str, **kw: Any) -> core.TLCResult:
+        fut = started.pop((module, cfg_name), None)
+        return fut.result() if fut is not None else core.run_tlc(module, cfg_name, **kw)
+
+    # 1. the design: TLC proves the three clauses for every call of the bounded space on the model
     # (no -coverage on this run: TLC's coverage bookkeeping of the deeply recursive operators exhausts the heap)
-    res = core.require_ok(core.run_tlc("Calls", cfg, timeout=3400), "Calls exhaustive")
+    res = core.require_ok(tlc("Calls", cfg, timeout=3400), "Calls exhaustive")
     if res.distinct < 5000:
         raise core.MachineryError("Calls exhaustive run explored suspiciously few states")
     check.add_tlc("exhaustive:" + cfg, res)
-    cov = core.require_ok(core.run_tlc("Calls", "Calls.cov.cfg", coverage=True, timeout=1200), "Calls coverage")
+    cov = core.require_ok(tlc("Calls", "Calls.cov.cfg", coverage=True, timeout=1200), "Calls coverage")
     core.require_coverage(cov, ACTIONS, "Calls")
     check.add_tlc("coverage:Calls.cov.cfg", cov)
     # sensitivity: plausible bugs switched on in the model must violate the diagnosis clause
     for scfg in ("Calls.sens1.cfg", "Calls.sens2.cfg"):
-        r = core.run_tlc("Calls", scfg, timeout=900)
+        r = tlc("Calls", scfg, timeout=900)
         if r.violated != "InvDiagnosis":
             raise core.MachineryError(f"sensitivity self-test {scfg} failed: InvDiagnosis unexpectedly holds ({r.error})")
-    r = core.run_tlc("Calls", "Calls.strict.cfg", timeout=900)
+    r = tlc("Calls", "Calls.strict.cfg", timeout=900)
     if r.violated != "InvSessDiagnosisStrict":
         raise core.MachineryError("sensitivity self-test failed: InvSessDiagnosisStrict unexpectedly holds on the model")
-    r = core.run_tlc("Calls", "Calls.strict2.cfg", timeout=900)
+    r = tlc("Calls", "Calls.strict2.cfg", timeout=900)
     if r.violated != "InvDiagnosisStrict":
         raise core.MachineryError("sensitivity self-test failed: InvDiagnosisStrict unexpectedly holds on the model")
-    fixed = core.run_tlc("Calls", "Calls.fixed.cfg", timeout=900)
+    fixed = tlc("Calls", "Calls.fixed.cfg", timeout=900)
     if not fixed.ok:
         raise core.MachineryError(f"the model with the proposed repair does not satisfy the strict invariant: {fixed.error}")
     check.cov["sensitivity"] = (
@@ -887,7 +934,7 @@ def run(check: core.Check) -> None:
     )
     # 2. S->C: every TLC case through the real checker and real CPython, adjudicated by TLC
     ecfg = "Calls.emit.quick.cfg" if quick else "Calls.emit.thorough.cfg"
-    em = core.require_ok(core.run_tlc("CallsEmit", ecfg, timeout=3000), "Calls emit")
+    em = core.require_ok(tlc("CallsEmit", ecfg, timeout=3000), "Calls emit")
     check.add_tlc("emit:" + ecfg, em)
     libdata, cases = split_emitted(em)
     if not cases:
@@ -900,7 +947,7 @@ def run(check: core.Check) -> None:
     # model and emits the cases in the same run.  Quick: every call with at most one argument, plus a seeded sample of
     # the two-argument calls; thorough: all of them (three arguments).
     ncfg = "Calls.new.quick.cfg" if quick else "Calls.new.thorough.cfg"
-    nres = core.require_ok(core.run_tlc("CallsEmit", ncfg, timeout=3000), "Calls defaults slice")
+    nres = core.require_ok(tlc("CallsEmit", ncfg, timeout=3000), "Calls defaults slice")
     check.add_tlc("exhaustive+emit:" + ncfg, nres)
     new_cases = [c for c in core.emitted_json(nres) if not (isinstance(c, dict) and "lib" in c)]
     if len(new_cases) < 2000:
@@ -916,7 +963,7 @@ def run(check: core.Check) -> None:
         exhaustive_new = True
     check.cov["defaults_slice_replayed"] = len(new_cases)
     check.cov["defaults_slice_exhaustive"] = exhaustive_new
-    r = core.run_tlc("Calls", "Calls.sens3.cfg", timeout=900)
+    r = tlc("Calls", "Calls.sens3.cfg", timeout=900)
     if r.violated != "InvDiagnosis":
         raise core.MachineryError(
             f"sensitivity self-test Calls.sens3.cfg failed: a model that treats 'equal to the default' as 'is the default' "
@@ -929,18 +976,18 @@ def run(check: core.Check) -> None:
     # fix / re-parameterise the base's parameters, methods on constructed instances, classmethod, explicit
     # specialisation, generic class / protocol as a parameter type): proved on the model and emitted in one run, all
     # cases replayed in both tiers
-    gres = core.require_ok(core.run_tlc("CallsEmit", "Calls.gen.quick.cfg", timeout=1800), "Calls generic-classes slice")
+    gres = core.require_ok(tlc("CallsEmit", "Calls.gen.quick.cfg", timeout=1800), "Calls generic-classes slice")
     check.add_tlc("exhaustive+emit:Calls.gen.quick.cfg", gres)
     gen_cases = [c for c in core.emitted_json(gres) if not (isinstance(c, dict) and "lib" in c)]
     if len(gen_cases) < 300:
         raise core.MachineryError("the generic-classes slice emitted suspiciously few cases")
     check.cov["generic_classes_slice_cases"] = len(gen_cases)
-    r = core.run_tlc("Calls", "Calls.sens4.cfg", timeout=900)
+    r = tlc("Calls", "Calls.sens4.cfg", timeout=900)
     if r.violated != "InvDiagnosis":
         raise core.MachineryError(
             f"sensitivity self-test Calls.sens4.cfg failed: a model that binds self of an inherited constructor without "
             f"matching the generic bases unexpectedly satisfies InvDiagnosis ({r.error})")
-    r = core.run_tlc("Calls", "Calls.strict3.cfg", timeout=900)
+    r = tlc("Calls", "Calls.strict3.cfg", timeout=900)
     if r.violated != "InvDiagnosisStrict":
         raise core.MachineryError("sensitivity self-test failed: InvDiagnosisStrict unexpectedly holds on the generic-classes slice")
     check.cov["sensitivity"] += (
@@ -949,7 +996,31 @@ def run(check: core.Check) -> None:
         "InvDiagnosisStrict is violated on the generic-classes slice (Calls.strict3): the deviations classmethod-on-"
         "specialised-class-keeps-free-typevar / subscripted-generic-class-call-unchecked are real on the model"
     )
-    cases = cases + new_cases + gen_cases
+    # 2d. the keyword-names slice (Calls!LibKwn: typed **kwargs next to positional-only / *args parameters; keyword menus
+    # with the names of all parameters incl. `kwargs` itself and a foreign name): quick replays every call with at most
+    # two arguments and a seeded sample of the three-argument calls, thorough all
+    kres = core.require_ok(tlc("CallsEmit", "Calls.kwn.quick.cfg", timeout=1800), "Calls keyword-names slice")
+    check.add_tlc("exhaustive+emit:Calls.kwn.quick.cfg", kres)
+    kwn_cases = [c for c in core.emitted_json(kres) if not (isinstance(c, dict) and "lib" in c)]
+    if len(kwn_cases) < 1000:
+        raise core.MachineryError("the keyword-names slice emitted suspiciously few cases")
+    check.cov["keyword_names_slice_model_cases"] = len(kwn_cases)
+    if quick:
+        small = [c for c in kwn_cases if len(c["pos"]) + len(c["kw"]) <= 2]
+        big = sorted((c for c in kwn_cases if len(c["pos"]) + len(c["kw"]) > 2), key=core.canon)
+        kwn_cases = small + rnd.sample(big, min(len(big), 400))
+    check.cov["keyword_names_slice_replayed"] = len(kwn_cases)
+    r = tlc("Calls", "Calls.sens5.cfg", timeout=900)
+    if r.violated != "InvDiagnosis":
+        raise core.MachineryError(
+            f"sensitivity self-test Calls.sens5.cfg failed: a model that leaves keywords named like an already bound "
+            f"parameter out of **kwargs unexpectedly satisfies InvDiagnosis ({r.error})")
+    check.cov["sensitivity"] += (
+        "; model whose **kwargs value leaves out every keyword named like an already bound parameter (positional-only, "
+        "*args) instead of the keywords a named parameter consumed (Calls.sens5, Bug = kwargs_drops_bound_names) violates "
+        "InvDiagnosis"
+    )
+    cases = cases + new_cases + gen_cases + kwn_cases
     check.cov["exhaustive"] = exhaustive
     check.cov["model_cases"] = len(cases)
     check.cov["library_functions"] = len(libdata["lib"])
@@ -965,7 +1036,12 @@ def run(check: core.Check) -> None:
         "with __init__/get/put/classmethod make, IntBox(GBox[int]), SmallIntBox(IntBox), StrBox(GBox[str]), "
         "PairBox(GBox[tuple[KT, VT]], Generic[KT, VT]), OwnBox (own __init__), NumBox (bound float), ConBox (constrained), "
         "dataclass DBox / IntDBox; calls C(x), C(x).get(), C(<fit>).put(x), C.make(x), GBox[int](x), unbox(b: GBox[T]), "
-        "first(b: HasGet[T]) over 1 / True / 'a' / 1.5 / None (tuples, constructed instances where declared), plain and star"
+        "first(b: HasGet[T]) over 1 / True / 'a' / 1.5 / None (tuples, constructed instances where declared), plain and star; "
+        "(d) keyword names Calls!LibKwn (Calls.kwn.quick.cfg): po_kw(a: int, /, **kwargs: str), po_default_kw(a: int = 0, /, "
+        "flag: bool = False, **kwargs: str), va_kw(*args: int, **kwargs: str), dunder_kw(__a: int, **kwargs: str), "
+        "tv_kw(a: T, /, **kwargs: T); keywords named a / flag / args / kwargs / zz with values 'a', 1, True; <= 2 positionals, "
+        "<= 2 keywords, <= 3 arguments; shapes plain / star / mixed / mixedk; bodies return every parameter (landing slots "
+        "validated against CPython); quick: all <= 2-argument calls + 400 sampled, thorough: all"
     )
     counts = judge(check, libdata, cases, "tlc-exhaustive")
     check.cov["verdict_counts"] = counts
@@ -975,8 +1051,8 @@ def run(check: core.Check) -> None:
         "diagnosed, NT(1) recorded as inferring NT(2, 'a')) are flagged by the trace specification"
     )
     # 3. beyond the exhaustive bound: TLC random simulation of the full literal set with more arguments
-    sim = core.simulate_cases("CallsEmit", "Calls.sim.cfg", 800 if quick else 20000, depth=8, seed=check.seed + 11,
-                              check=check)
+    sim = sim_job.result()
+    pool.shutdown()
     sim = [c for c in sim if not (isinstance(c, dict) and "lib" in c)]
     judge(check, libdata, sim, "tlc-simulate")
     # (the three-argument functions are only in the thorough tier's exhaustive set)
